@@ -277,6 +277,7 @@ func verifyFuncBeh(prog *Program, key string, beh *Behavior) (res *FuncResult) {
 		}
 	}()
 	sig := fn.Type().(*types.Signature)
+	ex.setupRenames(key, decl, pkg.TypesInfo)
 	// loop contracts must match loops
 	li := alignLoops(decl.Body, fc)
 	for n := range fc.Loops {
@@ -377,6 +378,11 @@ func verifyFuncBeh(prog *Program, key string, beh *Behavior) (res *FuncResult) {
 		}
 		if suffix == "" || !ex.exitsChecked {
 			// (per-exit checks run before exitsChecked is set; the frame is checked once, on the merged exit state)
+		}
+		if os.Getenv("GOVC_VACUITY_PROBE") != "" && suffix != "" {
+			// diagnostic: "false" at this exit must NOT be provable (it is only if the exit is unreachable or the facts are
+			// contradictory); such probes are never assumed and never part of a property
+			ex.obls = append(ex.obls, &Obl{Name: fmt.Sprintf("%s/V:vacuity-probe%s", ex.name, suffix), Kind: "V", Pos: ex.posString(decl.Pos()), PC: ex.st.pc, Goal: False, NFacts: len(ex.facts), Func: ex.name, Scopes: ex.st.scopes, FactIdx: -1})
 		}
 		for i, c := range fc.Ensures {
 			kind, lab := "E", c.Label
